@@ -38,14 +38,15 @@ import (
 // chosen operations. Decides C20.
 
 type SchedPlan struct {
-	Cast    []Principal `json:"cast"`
-	Dlgs    []DlgSpec   `json:"dlgs"` // root -> leaf
-	Inv     InvSpec     `json:"inv"`
-	Decoded bool        `json:"decoded"` // shared tokens come out of the decoders instead of the constructors
-	Ops     [][]string  `json:"ops"`     // per goroutine
-	Inter   []int       `json:"interleave"`
-	DupPrf  int         `json:"dup_proof,omitempty"` // >0: proof number DupPrf-1 is listed twice in a row (an invalid but well-formed invocation)
-	EncKey  []byte      `json:"enc_key,omitempty"`
+	Cast     []Principal `json:"cast"`
+	Dlgs     []DlgSpec   `json:"dlgs"` // root -> leaf
+	Inv      InvSpec     `json:"inv"`
+	Decoded  bool        `json:"decoded"`              // shared tokens come out of the decoders instead of the constructors
+	AudIsSub bool        `json:"aud_is_sub,omitempty"` // (with Decoded) the invocation's bytes spell out an audience equal to the subject
+	Ops      [][]string  `json:"ops"`                  // per goroutine
+	Inter    []int       `json:"interleave"`
+	DupPrf   int         `json:"dup_proof,omitempty"` // >0: proof number DupPrf-1 is listed twice in a row (an invalid but well-formed invocation)
+	EncKey   []byte      `json:"enc_key,omitempty"`
 }
 
 func (p *SchedPlan) Len() int { return len(p.Inter) }
@@ -235,6 +236,21 @@ func buildSchedWorld(p *SchedPlan) (*schedWorld, error) {
 	}
 	if after := recOf(inv).Ordered(); after != before && w.firstSeal == "" {
 		w.firstSeal = "invocation: " + firstDiff(before, after)
+	}
+	if p.Decoded && p.AudIsSub {
+		// an invocation as another implementation may issue it: the audience spelled out although
+		// it is the subject (no constructor of this library produces that; legal on the wire and
+		// correctly signed)
+		if env, oerr := openEnvelope(b); oerr == nil {
+			if subText := env.payload.MapGet("sub"); subText != nil {
+				env.payload.MapSet("aud", subText.Clone())
+				if env.resign(w.cast.ent(v.Iss).priv) == nil {
+					if _, c2, derr := invocation.FromSealed(env.bytes()); derr == nil {
+						b, c = env.bytes(), c2
+					}
+				}
+			}
+		}
 	}
 	if p.Decoded {
 		inv, _, err = invocation.FromSealed(b)
@@ -1200,6 +1216,7 @@ func genSched(r *Rand, g GenCfg) Plan {
 	if r.Chance(0.15) {
 		p.DupPrf = 1 + r.Intn(4)
 	}
+	p.AudIsSub = r.Chance(0.3)
 	p.EncKey = r.Bytes(32)
 	p.EncKey[0] |= 1
 	if r.Chance(0.3) {
